@@ -4,9 +4,17 @@
 // an unexported same-package helper it calls), their conditions are read in a canonical form (norm.go: helpers and
 // single-definition locals expanded, negation normal form, constant on the right, integer `<= c` read as `< c+1`),
 // and no name of a local, parameter, named result or unexported helper is compared with a literal. Renaming,
-// extracting / inlining a predicate, De Morgan rewrites, if-chain vs tag-less switch therefore do not break the tie,
-// while changing a limit, an operator, a polarity or an activation height changes the generated definitions
-// (limit / height) or stops the generator (operator / polarity / connective: broken tie).
+// extracting / inlining a predicate, De Morgan rewrites, if-chain vs tag-less switch therefore do not break the tie.
+// What is emitted:
+//   - numbers (limits, activation heights, constants): a guard read for a limit must be exactly ONE comparison of the
+//     expected quantity that returns (func `one`), else the generator stops;
+//   - structural Booleans (whole-hash comparisons — operands must not be cut or indexed —, counter read after the fallback);
+//   - canonical SHAPES (shape.go) of every marker-carrying guard of PreCheckBlock / PostCheckBlock with its enclosing
+//     conditions and whether it returns, of GetBlockFlags' rules, the commitment search loop, the lock-time cut-off,
+//     the retarget timespan and parent-step count, the base-weight expressions, the client's hand reset of a Block —
+//     pinned by Props.C05.guard_shapes, so that an edit of an operand / operator / polarity / connective / return changes
+//     a generated definition and a theorem stops holding (audit 2: 22 of 29 such edits used to regenerate identical facts).
+// Not read at all: see the manifest ("NOT pinned by any fact"); for those the differential harness is the tie.
 package main
 
 import (
@@ -24,6 +32,16 @@ import (
 )
 
 var facts int
+
+func hasLit(e ast.Expr) (yes bool) {
+	ast.Inspect(e, func(n ast.Node) bool {
+		if _, ok := n.(*ast.CompositeLit); ok {
+			yes = true
+		}
+		return true
+	})
+	return
+}
 
 func die(format string, a ...interface{}) {
 	fmt.Fprintln(os.Stderr, "TRANSLATE-ERROR:", fmt.Sprintf(format, a...))
@@ -224,16 +242,27 @@ func main() {
 	// ---- PreCheckBlock / PostCheckBlock guards (package lib/chain; the functions may live in any file of it)
 	pre := chain.get("Chain", "PreCheckBlock")
 	post := chain.get("Chain", "PostCheckBlock")
-	one := func(pk *pkgFuncs, fd *ast.FuncDecl, marker string, idx int, op token.Token, name, comment string) {
-		cs := comparisons(pk.findGuard(fd, marker).norm(env), env)
-		if idx >= len(cs) {
-			die("%s/%s: guard has %d comparisons, expected more than %d", fd.Name.Name, marker, len(cs), idx)
+	// one: a guard that is exactly ONE comparison `<left> OP <constant [+ non-constant addends]>` and returns (audit 2: an
+	// added conjunct / another left operand / a body without return used to regenerate the same number)
+	one := func(pk *pkgFuncs, fd *ast.FuncDecl, marker string, left string, op token.Token, name, comment string) {
+		g := pk.findGuard(fd, marker)
+		n := g.norm(env)
+		what := fd.Name.Name + "/" + marker
+		if n.kind != nAtom || n.op == token.ILLEGAL {
+			die("%s: the guard is not a single comparison any more (%s); the model was written for `%s %s <limit>`", what, shapeNNF(n, env), left, op)
 		}
-		def(name, want(cs[idx], op, fd.Name.Name+"/"+marker), comment)
+		if got := render(n.x, env); got != left {
+			die("%s: the guard compares %s, the model was written for %s", what, got, left)
+		}
+		if !returns(g.body) {
+			die("%s: the guarded statements do not return", what)
+		}
+		c, _ := constAddends(n.y, env)
+		def(name, want(cmp{n.op, c}, op, what), comment)
 	}
-	one(chain, pre, "bad-blk-length", 0, token.LSS, "preMinRawLen", "PreCheckBlock: len(bl.Raw) < this is refused")
-	one(chain, post, "bad-blk-length", 0, token.LSS, "postMinRawLen", "PostCheckBlock: len(bl.Raw) < this is refused")
-	one(chain, pre, "time-too-new", 0, token.GTR, "maxFutureBlockTime", "PreCheckBlock: block time > now + this is refused")
+	one(chain, pre, "bad-blk-length", "len(_.Raw)", token.LSS, "preMinRawLen", "PreCheckBlock: len(bl.Raw) < this is refused")
+	one(chain, post, "bad-blk-length", "len(_.Raw)", token.LSS, "postMinRawLen", "PostCheckBlock: len(bl.Raw) < this is refused")
+	one(chain, pre, "time-too-new", "int64(_.BlockTime())", token.GTR, "maxFutureBlockTime", "PreCheckBlock: block time > now + this is refused")
 	// dos value inside the time-too-new guard:  <first result> = int64(bl.BlockTime()) > time.Now().Unix()+A+B
 	// (an assignment to the first named result, or the first operand of a return statement)
 	{
@@ -275,8 +304,8 @@ func main() {
 			die("time-too-new: dos assignment not found")
 		}
 	}
-	one(chain, pre, "bad-version", 0, token.EQL, "forbiddenVersion", "PreCheckBlock: version == this is refused outright")
-	one(chain, post, "bad-blk-weight", 0, token.GTR, "postMaxWeight", "PostCheckBlock: BlockWeight > this is refused")
+	one(chain, pre, "bad-version", "int32(_.Version())", token.EQL, "forbiddenVersion", "PreCheckBlock: version == this is refused outright")
+	one(chain, post, "bad-blk-weight", "_.BlockWeight", token.GTR, "postMaxWeight", "PostCheckBlock: BlockWeight > this is refused")
 	// fork depth guard: `prevblk != lst_now && int(lst_now.Height)-int(bl.Height) >= MovingCheckopintDepth`
 	// (a conjunction of a node inequality and a depth comparison, in either order)
 	{
@@ -315,6 +344,24 @@ func main() {
 				if !mentions(call, n) {
 					return false
 				}
+			}
+			// the WHOLE hash: no operand may be indexed or cut (`Hash[:]` is the only slice expression allowed)
+			whole := true
+			for _, arg := range append([]ast.Expr{fn.X}, call.Args...) {
+				ast.Inspect(arg, func(m ast.Node) bool {
+					switch s := m.(type) {
+					case *ast.SliceExpr:
+						if s.Low != nil || s.High != nil || s.Max != nil {
+							whole = false
+						}
+					case *ast.IndexExpr:
+						whole = false
+					}
+					return true
+				})
+			}
+			if !whole {
+				die("a hash comparison `%s` cuts or indexes one of its operands: not a comparison of the whole hash", render(call, env))
 			}
 			return true
 		}
@@ -848,6 +895,181 @@ func main() {
 		if !found {
 			die("testnet min-difficulty guard not found")
 		}
+	}
+
+	// ---- canonical shapes (shape.go) of every guard of PreCheckBlock / PostCheckBlock that has a marker, of the rules of
+	// GetBlockFlags, of the commitment search loop, of the retarget timespan and of the base weight
+	{
+		type sh struct{ name, val string }
+		var shapes []sh
+		add := func(name, val string) { shapes = append(shapes, sh{name, val}); facts++ }
+		for _, m := range []struct {
+			fd           *ast.FuncDecl
+			name, marker string
+		}{
+			{pre, "pre/bad-blk-length", "bad-blk-length"}, {pre, "pre/bad-version", "Block version 0"}, {pre, "pre/high-hash", "high-hash"},
+			{pre, "pre/time-too-new", "time-too-new"}, {pre, "pre/index-collision", "collides with"}, {pre, "pre/genesis", "Genesis"},
+			{pre, "pre/bad-prevblk", "parent not found"},
+			{pre, "pre/too-deep", "hooks too deep"}, {pre, "pre/bad-diffbits", "bad-diffbits"}, {pre, "pre/time-too-old", "time-too-old"},
+			{pre, "pre/version-gate", "Rejected Version="},
+			{post, "post/bad-blk-length", "bad-blk-length"}, {post, "post/bad-blk-weight", "bad-blk-weight"}, {post, "post/bad-cb-missing", "bad-cb-missing"},
+			{post, "post/bad-cb-height", "bad-cb-height"}, {post, "post/bad-cb-multiple", "bad-cb-multiple"}, {post, "post/bad-txns-duplicate", "bad-txns-duplicate"},
+			{post, "post/bad-txnmrklroot", "bad-txnmrklroot"}, {post, "post/bad-witness-nonce-size", "bad-witness-nonce-size"},
+			{post, "post/bad-witness-merkle-match", "bad-witness-merkle-match"},
+		} {
+			add(m.name, chain.guardShape(chain.findGuard(m.fd, m.marker), env))
+		}
+		// where MedianPastTime / Height come from: the assignments to the block object's fields in PreCheckBlock
+		preIn := newInliner(chain, pre)
+		ast.Inspect(pre.Body, func(n ast.Node) bool {
+			if as, ok := n.(*ast.AssignStmt); ok && len(as.Lhs) == 1 && len(as.Rhs) == 1 {
+				if se, ok := as.Lhs[0].(*ast.SelectorExpr); ok && (se.Sel.Name == "MedianPastTime" || se.Sel.Name == "Height") {
+					add("pre/assign-"+se.Sel.Name, render(se, env)+" "+as.Tok.String()+" "+render(preIn.expand(as.Rhs[0], 2), env))
+				}
+			}
+			return true
+		})
+		// the commitment search: direction and bounds of the loop around the commitment guard
+		for _, g := range chain.allGuards(post) {
+			if g.fd == post && mentions(g.in.expand(g.cond, 2), "Pk_script") && hasLit(g.in.expand(g.cond, 2)) {
+				fs := enclosingFor(post, g.node)
+				if fs == nil {
+					die("commitment search: the commitment guard is not inside a `for` statement of PostCheckBlock")
+				}
+				cond := ""
+				if fs.Cond != nil {
+					cond = shapeNNF(toNNF(fs.Cond, false, env), env)
+				}
+				add("post/commitment-search", "for "+renderSimpleStmt(fs.Init, env)+"; "+cond+"; "+renderSimpleStmt(fs.Post, env))
+			}
+		}
+		// the lock-time cut-off handed to CheckTransactions: `if VerifyFlags & VER_CSV != 0 { t = MedianPastTime } else { t = BlockTime() }`
+		ast.Inspect(post.Body, func(n ast.Node) bool {
+			if is, ok := n.(*ast.IfStmt); ok && mentions(is.Cond, "VER_CSV") && len(is.Body.List) == 1 {
+				s := "if " + shapeNNF(toNNF(is.Cond, false, env), env) + " { " + renderSimpleStmt(is.Body.List[0], env) + " }"
+				if eb, ok := is.Else.(*ast.BlockStmt); ok && len(eb.List) == 1 {
+					s += " else { " + renderSimpleStmt(eb.List[0], env) + " }"
+				}
+				add("post/locktime-cutoff", s)
+			}
+			return true
+		})
+		// GetBlockFlags: each rule `if <cond> { flags (=||=) <bits> }`
+		gbf := chain.get("Chain", "GetBlockFlags")
+		gin := newInliner(chain, gbf)
+		renderNames = map[string]string{}
+		np := 0
+		for _, f := range gbf.Type.Params.List {
+			for _, n := range f.Names {
+				np++
+				renderNames[n.Name] = fmt.Sprintf("$%d", np) // (block_height, block_time) by position
+			}
+		}
+		nrule := 0
+		for i, st := range gbf.Body.List {
+			is, ok := st.(*ast.IfStmt)
+			if !ok {
+				continue
+			}
+			if len(is.Body.List) != 1 || is.Else != nil {
+				die("GetBlockFlags: rule %d is not `if cond { one assignment }`", i)
+			}
+			nrule++
+			add(fmt.Sprintf("flags/rule-%d", nrule), shapeNNF(toNNF(gin.expand(is.Cond, 2), false, env), env)+" => "+renderSimpleStmt(is.Body.List[0], env))
+		}
+		renderNames = nil
+		if abf := chain.funcs["Chain.ApplyBlockFlags"]; abf != nil && len(abf.Body.List) == 1 {
+			add("flags/apply", renderSimpleStmt(abf.Body.List[0], env))
+		} else {
+			die("ApplyBlockFlags: expected the single statement `bl.VerifyFlags = ch.GetBlockFlags(bl.Height, bl.BlockTime())`")
+		}
+		// retarget: the timespan expression (the definition of the clamped local) and the number of parent steps
+		ast.Inspect(gn.Body, func(n ast.Node) bool {
+			if as, ok := n.(*ast.AssignStmt); ok && as.Tok == token.DEFINE && len(as.Lhs) == 1 && len(as.Rhs) == 1 && mentions(as.Rhs[0], "Timestamp") {
+				if _, isBin := unparen(as.Rhs[0]).(*ast.BinaryExpr); isBin {
+					add("gnwr/timespan", render(as.Rhs[0], env))
+				}
+			}
+			return true
+		})
+		steps := int64(-1)
+		ast.Inspect(gn.Body, func(n ast.Node) bool {
+			if fs, ok := n.(*ast.ForStmt); ok && fs.Init != nil && len(fs.Body.List) == 1 {
+				if as, ok := fs.Body.List[0].(*ast.AssignStmt); ok && len(as.Lhs) == 1 && len(as.Rhs) == 1 {
+					if se, ok := as.Rhs[0].(*ast.SelectorExpr); ok && se.Sel.Name == "Parent" && render(as.Lhs[0], env) == render(se.X, env) {
+						k, ok := tripCount(fs, env)
+						if !ok || steps >= 0 {
+							die("GetNextWorkRequired: the counted loop `for …  { prv = prv.Parent }` has a shape whose trip count cannot be read")
+						}
+						steps = k
+					}
+				}
+			}
+			return true
+		})
+		if steps < 0 {
+			die("GetNextWorkRequired: the counted loop over the parents was not found")
+		}
+		def("retargetParentSteps", fmt.Sprint(steps), "GetNextWorkRequired: number of `prv = prv.Parent` steps back to the first block of the period")
+		// base weight: every expression of BuildTxListExt that measures the counter (VLenSize)
+		btl := btcPkg.get("Block", "BuildTxListExt")
+		nbw := 0
+		ast.Inspect(btl.Body, func(n ast.Node) bool {
+			if as, ok := n.(*ast.AssignStmt); ok && len(as.Rhs) == 1 && mentions(as.Rhs[0], "VLenSize") {
+				nbw++
+				add(fmt.Sprintf("build/base-weight-%d", nbw), render(as.Rhs[0], env))
+			}
+			return true
+		})
+		if nbw == 0 {
+			die("BuildTxListExt: no assignment measures the transaction counter with VLenSize (base weight)")
+		}
+		// the client's hand reset of a Block object after a corrupt copy (client/network/data.go, cblk.go): the harness's
+		// retry paths (go/cmd/c05/entrypaths.go) re-implement these statements — they are re-read here so that a change to
+		// the client's reset is no longer invisible (audit 2, 3d)
+		for _, rel := range []string{"client/network/data.go", "client/network/cblk.go"} {
+			f := parse(rel)
+			k := 0
+			ast.Inspect(f.AST, func(n ast.Node) bool {
+				blk, ok := n.(*ast.BlockStmt)
+				if !ok {
+					return true
+				}
+				isReset := false
+				var sts []string
+				for _, st := range blk.List {
+					switch x := st.(type) {
+					case *ast.AssignStmt:
+						if len(x.Lhs) == 1 && len(x.Rhs) == 1 && mentions(x.Lhs[0], "Txs") && render(x.Rhs[0], env) == "nil" {
+							isReset = true
+						}
+						sts = append(sts, renderSimpleStmt(x, env))
+					case *ast.ExprStmt:
+						if call, ok := x.X.(*ast.CallExpr); ok && mentions(call.Fun, "UpdateContent") {
+							sts = append(sts, renderSimpleStmt(x, env))
+						}
+					}
+				}
+				if isReset {
+					k++
+					sort.Strings(sts)
+					add(fmt.Sprintf("client-reset/%s#%d", rel[len("client/network/"):], k), strings.Join(sts, "; "))
+				}
+				return true
+			})
+			if k == 0 {
+				die("%s: the hand reset of the Block object after a corrupt copy (`… .Txs = nil`) was not found", rel)
+			}
+		}
+		sb.WriteString("/-- canonical shapes of the guards (go/cmd/gen_c05/shape.go); pinned by Props.C05.guard_shapes -/\ndef guardShapes : List (String × String) := [\n")
+		for i, s := range shapes {
+			sep := ","
+			if i == len(shapes)-1 {
+				sep = ""
+			}
+			fmt.Fprintf(&sb, "  (%s, %s)%s\n", leanStr(s.name), leanStr(s.val), sep)
+		}
+		sb.WriteString("]\n")
 	}
 
 	// ---- Block.BuildTxListExt: is the object's transaction counter read only after the `TxCount == 0` fallback?
